@@ -292,13 +292,17 @@ class ReadableStream(io.RawIOBase):
         :returns: 1 - 7 bytes of data or no bytes if EOF.
         :rtype: bytes
         """
+        if size is None or size < 0:
+            return self.readall()
+        if self._pending:
+            # Rest of a segment that did not fit into the buffer given to readinto()
+            data, self._pending = self._pending, b""
+            return data
         if self._done:
             return b""
         if self.exp_data is not None:
             self._done = True
             return self.exp_data
-        if size is None or size < 0:
-            return self.readall()
 
         command = REQUEST_SEGMENT_UPLOAD
         command |= self._toggle
@@ -526,10 +530,14 @@ class BlockUploadStream(io.RawIOBase):
         :returns: 1 - 7 bytes of data or no bytes if EOF.
         :rtype: bytes
         """
-        if self._done:
-            return b""
         if size is None or size < 0:
             return self.readall()
+        if self._pending:
+            # Rest of a segment that did not fit into the buffer given to readinto()
+            data, self._pending = self._pending, b""
+            return data
+        if self._done:
+            return b""
 
         try:
             response = self.sdo_client.read_response()
